@@ -125,6 +125,11 @@ def draw_graph(rnd, n=None, types=STRUCTURAL, with_noop=False, with_number=None,
     return props, graph
 
 
+# largest absolute value among the intermediate results (node values, polynomial terms) of the last eval_graph call: binary64
+# evaluation of the same graph is only accurate relative to THAT magnitude ((s0 + s1) - s1 with |s1| >> |s0| legitimately gives 0)
+LAST_MAGNITUDE = Fraction(0)
+
+
 class Wraps(Exception):
     """an integer-typed intermediate result does not fit the raw integer dtype: NumPy wraps, outside the property"""
 
@@ -135,7 +140,12 @@ def eval_graph(graph, raw, scalers=None, int_range=None):
     integer-typed in NumPy; if such a result leaves the range the case is reported through `Wraps`."""
     vals = []
     is_int = []
+    global LAST_MAGNITUDE
+    LAST_MAGNITUDE = Fraction(0)
     for node in graph:
+        if vals:
+            LAST_MAGNITUDE = max(LAST_MAGNITUDE, abs(vals[-1]))
+
         def inp(s):
             return Fraction(raw) if s == RAW else vals[s]
 
@@ -158,7 +168,9 @@ def eval_graph(graph, raw, scalers=None, int_range=None):
             vals.append(inp(node[3]) * Fraction(node[1]) + Fraction(node[2]))
         elif k == "polynomial":
             x = inp(node[2])
-            vals.append(sum(Fraction(c) * x ** q for q, c in enumerate(node[1])))
+            terms = [Fraction(c) * x ** q for q, c in enumerate(node[1])]
+            LAST_MAGNITUDE = max([LAST_MAGNITUDE] + [abs(t) for t in terms])
+            vals.append(sum(terms))
         elif k == "table":
             xs, ys = node[1], node[2]
             if xs[0] > xs[-1]:
@@ -207,15 +219,15 @@ def raw_values(rnd, ty, n):
     return vals, [struct.pack("<" + fmt, v) for v in vals]
 
 
-def one_channel_file(ty, chunks_vals, chan_props, group_props, root_props, nseg=1, big=False, order="rgc", interleaved=False):
+def one_channel_file(ty, chunks_vals, chan_props, group_props, root_props, nseg=1, big=False, order="rgc", interleaved=False, names=("g", "c")):
     """file encoding with a root, a group and one channel; chunks_vals: list (per segment) of list of packed values.
     order: "rgc" root, group, channel (what writers produce); "cgr" the channel is listed BEFORE its group and the root;
     "late" the group and root objects only appear in the last segment (after the channel's first data)."""
-    pc = path_of("g", "c")
+    pc = path_of(*names)
     segs = []
     for si, vals in enumerate(chunks_vals):
         objs = []
-        parents = [dict(path=path_of(), idx=("N",), props=root_props), dict(path=path_of("g"), idx=("N",), props=group_props)]
+        parents = [dict(path=path_of(), idx=("N",), props=root_props), dict(path=path_of(names[0]), idx=("N",), props=group_props)]
         if order == "rgc" and si == 0:
             objs += parents
         objs.append(dict(path=pc, idx=("F", ty, len(vals), 0), props=chan_props if si == 0 else []))
